@@ -278,7 +278,7 @@ def rust_type(ty):
     raise ValueError(ty)
 
 
-def parser_binding(i, text):
+def parser_binding(i, text, probe=True):
     """`{ parse_direction := …, yielded_last_split := …, start_offset := n, str := [bytes] }` ->
     `Parser::with_start_offset(str, n)`; only the state that constructor builds (direction FromStart, the split flag
     unset), a UTF-8 remainder, and `start_offset + len < 2^32` (the bound of the equivalence theorems: past it the
@@ -287,10 +287,15 @@ def parser_binding(i, text):
     if not isinstance(v, dict):
         return None
     d = v.get("parse_direction")
-    if not (isinstance(d, tuple) and d[0] == "ctor" and d[1].endswith("ParseDirection.FromStart")):
+    if not (isinstance(d, tuple) and d[0] == "ctor" and "ParseDirection." in d[1]):
         return None
-    if v.get("yielded_last_split") is not False:
+    if probe and (not d[1].endswith("ParseDirection.FromStart") or v.get("yielded_last_split") is not False):
         return None
+    # functions of the Parser groups (not probes): the search is for *some* failing input of the real code, so a state
+    # the public API cannot build is moved to the nearest one it can build — direction FromEnd through `.skip_back(0)`
+    # (sets the direction, changes nothing else), FromBoth and a set split flag fall back to the constructor's state;
+    # the std side of those entries is written for exactly the parser that is built here
+    back = (not probe) and d[1].endswith("ParseDirection.FromEnd")
     bs, off = v.get("str"), v.get("start_offset")
     if not isinstance(bs, list) or not all(isinstance(b, int) and b < 256 for b in bs) or not _valid_utf8(bs):
         return None
@@ -298,7 +303,7 @@ def parser_binding(i, text):
         return None
     lit = "[" + ", ".join(f"{b}u8" for b in bs) + "]"
     return (f"let a{i}_b: &[u8] = &{lit}; let a{i}_s: &str = std::str::from_utf8(a{i}_b).unwrap(); let a{i}_off: usize = {off}usize; "
-            f"let a{i}: konst::Parser<'_> = konst::Parser::with_start_offset(a{i}_s, a{i}_off);")
+            f"let a{i}: konst::Parser<'_> = konst::Parser::with_start_offset(a{i}_s, a{i}_off){'.skip_back(0)' if back else ''};")
 
 
 def _array_len(text):
@@ -323,9 +328,9 @@ def rust_binding(kind, i, text):
         except ValueError:
             return None
         return r and f"let a{i}: {r[0]} = {r[1]};"
-    if kind == "parser":
+    if kind in ("parser", "parser_any"):
         try:
-            return parser_binding(i, text)
+            return parser_binding(i, text, probe=(kind == "parser"))
         except ValueError:
             return None
     if kind in ("bytes", "bytes_mut", "str", "chars"):
